@@ -1,4 +1,5 @@
 CONSTANTS MaxIn = 3  MaxOut = 3
+CONSTANT HtSet <- HtAll
 SPECIFICATION Spec
 INVARIANTS CommitmentLemma TwoFormsLemma MaskLemma CoinLemma SingleBugLemma ShapeLemma
 PROPERTY Frame
